@@ -1,4 +1,4 @@
-use std::collections::BTreeMap;
+use std::collections::{BTreeMap, BTreeSet};
 use std::fmt;
 
 use nonempty::NonEmpty;
@@ -185,31 +185,37 @@ impl Canonical {
     /// Also returns an error if `heads` is empty or `threshold` cannot be
     /// satisified with the number of heads given.
     pub fn quorum(self, repo: &raw::Repository) -> Result<Oid, QuorumError> {
-        let mut candidates = BTreeMap::<_, usize>::new();
+        let mut candidates = BTreeMap::<Oid, BTreeSet<&Did>>::new();
 
-        // Build a list of candidate commits and count how many "votes" each of them has.
-        // Commits get a point for each direct vote, as well as for being part of the ancestry
-        // of a commit given to this function. Only commits given to the function are considered.
-        for (i, head) in self.tips.values().enumerate() {
+        // Build a list of candidate commits and collect the delegates "voting" for each of them.
+        // A delegate votes for its own head, as well as for every other head that is part of
+        // the ancestry of its head. Only commits given to the function are considered, and
+        // every delegate counts at most once per commit, no matter how many delegates share
+        // that commit.
+        for (i, (did, head)) in self.tips.iter().enumerate() {
             // Add a direct vote for this head.
-            *candidates.entry(*head).or_default() += 1;
+            candidates.entry(*head).or_default().insert(did);
 
             // Compare this head to all other heads ahead of it in the list.
-            for other in self.tips.values().skip(i + 1) {
-                // N.b. if heads are equal then skip it, otherwise it will end up as
-                // a double vote.
+            for (other_did, other) in self.tips.iter().skip(i + 1) {
+                // N.b. if heads are equal then skip it, both delegates vote
+                // directly for it.
                 if *head == *other {
                     continue;
                 }
                 let base = Oid::from(repo.merge_base(**head, **other)?);
 
-                if base == *other || base == *head {
-                    *candidates.entry(base).or_default() += 1;
+                if base == *other {
+                    // `other` is an ancestor of `head`: `did` votes for it too.
+                    candidates.entry(base).or_default().insert(did);
+                } else if base == *head {
+                    // `head` is an ancestor of `other`: `other_did` votes for it too.
+                    candidates.entry(base).or_default().insert(other_did);
                 }
             }
         }
         // Keep commits which pass the threshold.
-        candidates.retain(|_, votes| *votes >= self.threshold);
+        candidates.retain(|_, voters| voters.len() >= self.threshold);
 
         let (mut longest, _) =
             candidates
